@@ -2,6 +2,7 @@
 from __future__ import annotations
 
 import os.path
+import re
 from collections.abc import Iterable, Mapping
 from typing import IO, Self
 
@@ -38,6 +39,10 @@ class MaildirFlags(FileReadable):
                                      Deleted: 'T',
                                      Draft: 'D',
                                      Answered: 'R'}
+
+    #: A keyword is written to the client as an IMAP atom.
+    _keyword_pattern = re.compile(
+        r'[\x21\x23\x24\x26\x27\x2B-\x5B\x5E-\x7A\x7C\x7E]+')
 
     _to_sys: Mapping[str, Flag] = {'S': Seen,
                                    'F': Flagged,
@@ -130,6 +135,10 @@ class MaildirFlags(FileReadable):
             i, kwd = line.split()
             if kwd.startswith('\\'):
                 raise ValueError(kwd)
+            if self._keyword_pattern.fullmatch(kwd) is None:
+                # not an atom: it could not be sent in FLAGS, PERMANENTFLAGS
+                # or FETCH responses, the keyword is not available
+                continue
             code = chr(ord('a') + int(i))
             flag = Flag(kwd)
             to_kwd[code] = flag
